@@ -177,6 +177,16 @@ fn mk_waker(ident: Value) -> Waker {
     Waker::from(Arc::new(TaskWaker { ident, thread: shuttle::thread::current() }))
 }
 
+/// Runs the destructor of a boxed future but keeps its memory allocated (leaked): if the library
+/// wrongly keeps a pointer to a dropped wait node, later accesses read stale but mapped memory and
+/// the run continues to a recorded symptom instead of taking the whole process down.
+fn drop_keep<F>(fut: std::pin::Pin<Box<F>>) {
+    unsafe {
+        let raw = Box::into_raw(std::pin::Pin::into_inner_unchecked(fut));
+        std::ptr::drop_in_place(raw);
+    }
+}
+
 fn choice(n: u32) -> u32 {
     use shuttle::rand::Rng;
     shuttle::rand::thread_rng().gen_range(0..n)
@@ -222,12 +232,12 @@ fn prog_mutex(consts: &Value) {
                     let (r, i) = call(json!({"op": "poll", "f": t, "w": v}), || fut.as_mut().poll(&mut cx));
                     match r {
                         Poll::Ready(g) => {
-                            set_res(i, json!({"res": "ready"}));
+                            set_res(i, json!({"res": "ready", "fterm": fut.is_terminated()}));
                             guard = Some(g);
                             break;
                         }
                         Poll::Pending => {
-                            set_res(i, json!({"res": "pending"}));
+                            set_res(i, json!({"res": "pending", "fterm": fut.is_terminated()}));
                             if choice(5) == 0 {
                                 break; // give up (timeout): the future is dropped while pending
                             }
@@ -241,7 +251,7 @@ fn prog_mutex(consts: &Value) {
                     *g = v + 1;
                     call(json!({"op": "drop_guard"}), move || drop(g));
                 }
-                call(json!({"op": "drop", "f": t}), move || drop(fut));
+                call(json!({"op": "drop", "f": t}), move || drop_keep(fut));
             }
         }));
     }
@@ -282,12 +292,12 @@ macro_rules! prog_semaphore_impl {
                     let (r, i) = call(json!({"op": "poll", "f": t, "w": v}), || fut.as_mut().poll(&mut cx));
                     match r {
                         Poll::Ready(g) => {
-                            set_res(i, json!({"res": "ready"}));
+                            set_res(i, json!({"res": "ready", "fterm": fut.is_terminated()}));
                             rel = Some(g);
                             break;
                         }
                         Poll::Pending => {
-                            set_res(i, json!({"res": "pending"}));
+                            set_res(i, json!({"res": "pending", "fterm": fut.is_terminated()}));
                             if choice(5) == 0 {
                                 break;
                             }
@@ -299,7 +309,7 @@ macro_rules! prog_semaphore_impl {
                     shuttle::thread::yield_now();
                     call(json!({"op": "drop_releaser", "a": n}), move || drop(g));
                 }
-                call(json!({"op": "drop", "f": t}), move || drop(fut));
+                call(json!({"op": "drop", "f": t}), move || drop_keep(fut));
             }
         }));
     }
@@ -327,11 +337,11 @@ fn prog_event(consts: &Value) {
                 let (r, i) = call(json!({"op": "poll", "f": t, "w": v}), || fut.as_mut().poll(&mut cx));
                 match r {
                     Poll::Ready(()) => {
-                        set_res(i, json!({"res": "ready"}));
+                        set_res(i, json!({"res": "ready", "fterm": fut.is_terminated()}));
                         break;
                     }
                     Poll::Pending => {
-                        set_res(i, json!({"res": "pending"}));
+                        set_res(i, json!({"res": "pending", "fterm": fut.is_terminated()}));
                         if choice(6) == 0 {
                             break;
                         }
@@ -339,7 +349,7 @@ fn prog_event(consts: &Value) {
                     }
                 }
             }
-            call(json!({"op": "drop", "f": t}), move || drop(fut));
+            call(json!({"op": "drop", "f": t}), move || drop_keep(fut));
         }));
     }
     // a resetter that races with the setter
@@ -395,22 +405,22 @@ macro_rules! prog_mpmc_impl {
                             let (r, i) = call(json!({"op": "poll_send", "s": p, "w": vr}), || fut.as_mut().poll(&mut cx));
                             match r {
                                 Poll::Ready(Ok(())) => {
-                                    set_res(i, json!({"res": "ok", "rv": 0}));
+                                    set_res(i, json!({"res": "ok", "rv": 0, "fterm": fut.is_terminated()}));
                                     break;
                                 }
                                 Poll::Ready(Err(ChannelSendError(x))) => {
-                                    set_res(i, json!({"res": "err", "rv": x}));
+                                    set_res(i, json!({"res": "err", "rv": x, "fterm": fut.is_terminated()}));
                                     break;
                                 }
                                 Poll::Pending => {
-                                    set_res(i, json!({"res": "pending", "rv": 0}));
+                                    set_res(i, json!({"res": "pending", "rv": 0, "fterm": fut.is_terminated()}));
                                     shuttle::thread::park();
                                 }
                             }
                         }
                         let term = fut.is_terminated();
                         let _ = term;
-                        call(json!({"op": "drop_send", "s": p, "dropped": []}), move || drop(fut));
+                        call(json!({"op": "drop_send", "s": p, "dropped": []}), move || drop_keep(fut));
                     }
                     if done.fetch_add(1, Ordering::SeqCst) + 1 == np {
                         let (st, i) = call(json!({"op": "close"}), || ch.close());
@@ -430,16 +440,16 @@ macro_rules! prog_mpmc_impl {
                         let (r, i) = call(json!({"op": "poll_recv", "r": c, "w": vr}), || fut.as_mut().poll(&mut cx));
                         match r {
                             Poll::Ready(Some(x)) => {
-                                set_res(i, json!({"res": "some", "v": x}));
+                                set_res(i, json!({"res": "some", "v": x, "fterm": fut.is_terminated()}));
                                 break;
                             }
                             Poll::Ready(None) => {
-                                set_res(i, json!({"res": "none", "v": 0}));
+                                set_res(i, json!({"res": "none", "v": 0, "fterm": fut.is_terminated()}));
                                 end = true;
                                 break;
                             }
                             Poll::Pending => {
-                                set_res(i, json!({"res": "pending", "v": 0}));
+                                set_res(i, json!({"res": "pending", "v": 0, "fterm": fut.is_terminated()}));
                                 if choice(5) == 0 {
                                     break; // abandon this receive (timeout)
                                 }
@@ -447,7 +457,7 @@ macro_rules! prog_mpmc_impl {
                             }
                         }
                     }
-                    call(json!({"op": "drop_recv", "r": c}), move || drop(fut));
+                    call(json!({"op": "drop_recv", "r": c}), move || drop_keep(fut));
                     if end {
                         break;
                     }
@@ -462,6 +472,168 @@ macro_rules! prog_mpmc_impl {
 prog_mpmc_impl!(prog_mpmc1, Chan);
 prog_mpmc_impl!(prog_mpmc0, Chan0);
 
+
+/// Shared flavour: every producer owns a Sender clone, every consumer a Receiver clone; the channel
+/// closes when the last handle of one side is dropped (by whichever thread happens to be last).
+fn prog_mpmc_shared(consts: &Value) {
+    use futures_intrusive::buffer::FixedHeapBuf;
+    use futures_intrusive::channel::shared::generic_channel;
+    let np = consts["NS"].as_u64().unwrap_or(2) as usize;
+    let nc = consts["NR"].as_u64().unwrap_or(2) as usize;
+    let per = consts["PerProducer"].as_u64().unwrap_or(2) as u32;
+    let cap = consts["Cap"].as_u64().unwrap_or(1) as usize;
+    let (tx, rx) = generic_channel::<SLock, u32, FixedHeapBuf<u32>>(cap);
+    let mut hs = Vec::new();
+    for p in 1..=np {
+        let (txp, _) = call(json!({"op": "clone_sender"}), || tx.clone());
+        hs.push(shuttle::thread::spawn(move || {
+            for j in 0..per {
+                let v = (p as u32 - 1) * per + j + 1;
+                let (fut, _) = call(json!({"op": "create_send", "s": p, "v": v}), || txp.send(v));
+                let mut fut = Box::pin(fut);
+                loop {
+                    let vr = variant();
+                    let w = mk_waker(json!(["s", p, vr]));
+                    let mut cx = Context::from_waker(&w);
+                    let (r, i) = call(json!({"op": "poll_send", "s": p, "w": vr}), || fut.as_mut().poll(&mut cx));
+                    match r {
+                        Poll::Ready(Ok(())) => {
+                            set_res(i, json!({"res": "ok", "rv": 0, "fterm": fut.is_terminated()}));
+                            break;
+                        }
+                        Poll::Ready(Err(ChannelSendError(x))) => {
+                            set_res(i, json!({"res": "err", "rv": x, "fterm": fut.is_terminated()}));
+                            break;
+                        }
+                        Poll::Pending => {
+                            set_res(i, json!({"res": "pending", "rv": 0, "fterm": fut.is_terminated()}));
+                            shuttle::thread::park();
+                        }
+                    }
+                }
+                call(json!({"op": "drop_send", "s": p, "dropped": []}), move || drop_keep(fut));
+            }
+            call(json!({"op": "drop_sender"}), move || drop(txp));
+        }));
+    }
+    for c in 1..=nc {
+        let (rxc, _) = call(json!({"op": "clone_receiver"}), || rx.clone());
+        hs.push(shuttle::thread::spawn(move || {
+            let mut got = 0;
+            loop {
+                let (fut, _) = call(json!({"op": "create_recv", "r": c}), || rxc.receive());
+                let mut fut = Box::pin(fut);
+                let mut end = false;
+                loop {
+                    let vr = variant();
+                    let w = mk_waker(json!(["r", c, vr]));
+                    let mut cx = Context::from_waker(&w);
+                    let (r, i) = call(json!({"op": "poll_recv", "r": c, "w": vr}), || fut.as_mut().poll(&mut cx));
+                    match r {
+                        Poll::Ready(Some(x)) => {
+                            set_res(i, json!({"res": "some", "v": x, "fterm": fut.is_terminated()}));
+                            got += 1;
+                            break;
+                        }
+                        Poll::Ready(None) => {
+                            set_res(i, json!({"res": "none", "v": 0, "fterm": fut.is_terminated()}));
+                            end = true;
+                            break;
+                        }
+                        Poll::Pending => {
+                            set_res(i, json!({"res": "pending", "v": 0, "fterm": fut.is_terminated()}));
+                            if choice(5) == 0 {
+                                break; // abandon this receive (timeout)
+                            }
+                            shuttle::thread::park();
+                        }
+                    }
+                }
+                call(json!({"op": "drop_recv", "r": c}), move || drop_keep(fut));
+                // a consumer may walk away early; when all of them have, senders get their values back
+                if end || (got >= 1 && choice(4) == 0) {
+                    break;
+                }
+            }
+            call(json!({"op": "drop_receiver"}), move || drop(rxc));
+        }));
+    }
+    call(json!({"op": "drop_sender"}), move || drop(tx));
+    call(json!({"op": "drop_receiver"}), move || drop(rx));
+    for h in hs {
+        h.join().unwrap();
+    }
+}
+
+/// Timer service shared by threads: K tasks wait for deadlines / delays (some give up), one thread owns
+/// the clock: it advances it, runs check_expirations() and reads next_expiration().
+fn prog_timer(consts: &Value) {
+    use futures_intrusive::timer::{GenericTimerService, MockClock, Timer};
+    use std::time::Duration;
+    let k = consts["K"].as_u64().unwrap_or(3) as usize;
+    let rounds = consts["Rounds"].as_u64().unwrap_or(2);
+    let clock: &'static MockClock = Box::leak(Box::new(MockClock::new()));
+    let svc: &'static GenericTimerService<SLock> = Box::leak(Box::new(GenericTimerService::new(clock)));
+    let left = Arc::new(std::sync::atomic::AtomicUsize::new(k));
+    let mut hs = Vec::new();
+    for t in 1..=k {
+        let left = left.clone();
+        hs.push(shuttle::thread::spawn(move || {
+            for _ in 0..rounds {
+                let fut = if choice(2) == 0 {
+                    let d = choice(4) as u64;
+                    let (fut, i) = call(json!({"op": "delay", "f": t, "d": d}), || svc.delay(Duration::from_millis(d)));
+                    set_res(i, json!({"res": "ok", "val": fut.verif_node().extra}));
+                    fut
+                } else {
+                    let at = choice(7) as u64;
+                    call(json!({"op": "create", "f": t, "t": at, "res": "ok"}), || svc.deadline(at)).0
+                };
+                let mut fut = Box::pin(fut);
+                loop {
+                    let v = variant();
+                    let w = mk_waker(json!([t, v]));
+                    let mut cx = Context::from_waker(&w);
+                    let (r, i) = call(json!({"op": "poll", "f": t, "w": v}), || fut.as_mut().poll(&mut cx));
+                    match r {
+                        Poll::Ready(()) => {
+                            set_res(i, json!({"res": "ready", "fterm": fut.is_terminated()}));
+                            break;
+                        }
+                        Poll::Pending => {
+                            set_res(i, json!({"res": "pending", "fterm": fut.is_terminated()}));
+                            if choice(6) == 0 {
+                                break;
+                            }
+                            shuttle::thread::park();
+                        }
+                    }
+                }
+                call(json!({"op": "drop", "f": t}), move || drop_keep(fut));
+            }
+            left.fetch_sub(1, Ordering::SeqCst);
+        }));
+    }
+    hs.push(shuttle::thread::spawn(move || {
+        let mut now = 0u64;
+        while left.load(Ordering::SeqCst) > 0 {
+            if choice(3) != 0 {
+                now += 1 + choice(2) as u64;
+                call(json!({"op": "set_clock", "t": now}), || clock.set_time(now));
+            }
+            call(json!({"op": "check"}), || svc.check_expirations());
+            let (r, i) = call(json!({"op": "next_exp"}), || svc.next_expiration());
+            match r {
+                Some(x) => set_res(i, json!({"res": "some", "val": x})),
+                None => set_res(i, json!({"res": "none", "val": 0})),
+            }
+            shuttle::thread::yield_now();
+        }
+    }));
+    for h in hs {
+        h.join().unwrap();
+    }
+}
 
 macro_rules! prog_oneshot_impl {
     ($name:ident, $ty:ty) => {
@@ -480,15 +652,15 @@ macro_rules! prog_oneshot_impl {
                         let (r, i) = call(json!({"op": "poll", "r": t, "w": v}), || fut.as_mut().poll(&mut cx));
                         match r {
                             Poll::Ready(Some(x)) => {
-                                set_res(i, json!({"res": "some", "v": x}));
+                                set_res(i, json!({"res": "some", "v": x, "fterm": fut.is_terminated()}));
                                 break;
                             }
                             Poll::Ready(None) => {
-                                set_res(i, json!({"res": "none", "v": 0}));
+                                set_res(i, json!({"res": "none", "v": 0, "fterm": fut.is_terminated()}));
                                 break;
                             }
                             Poll::Pending => {
-                                set_res(i, json!({"res": "pending", "v": 0}));
+                                set_res(i, json!({"res": "pending", "v": 0, "fterm": fut.is_terminated()}));
                                 if choice(6) == 0 {
                                     break;
                                 }
@@ -496,7 +668,7 @@ macro_rules! prog_oneshot_impl {
                             }
                         }
                     }
-                    call(json!({"op": "drop", "r": t}), move || drop(fut));
+                    call(json!({"op": "drop", "r": t}), move || drop_keep(fut));
                 }));
             }
             hs.push(shuttle::thread::spawn(move || {
@@ -541,17 +713,17 @@ fn prog_state(consts: &Value) {
                     let (r, i) = call(json!({"op": "poll", "r": t, "w": v}), || fut.as_mut().poll(&mut cx));
                     match r {
                         Poll::Ready(Some((sid, x))) => {
-                            set_res(i, json!({"res": "some", "sid": sid.verif_value(), "v": x}));
+                            set_res(i, json!({"res": "some", "sid": sid.verif_value(), "v": x, "fterm": fut.is_terminated()}));
                             id = sid;
                             break;
                         }
                         Poll::Ready(None) => {
-                            set_res(i, json!({"res": "none", "sid": 0, "v": 0}));
+                            set_res(i, json!({"res": "none", "sid": 0, "v": 0, "fterm": fut.is_terminated()}));
                             end = true;
                             break;
                         }
                         Poll::Pending => {
-                            set_res(i, json!({"res": "pending", "sid": 0, "v": 0}));
+                            set_res(i, json!({"res": "pending", "sid": 0, "v": 0, "fterm": fut.is_terminated()}));
                             if choice(8) == 0 {
                                 break; // abandon and start over with the same id
                             }
@@ -559,7 +731,7 @@ fn prog_state(consts: &Value) {
                         }
                     }
                 }
-                call(json!({"op": "drop", "r": t}), move || drop(fut));
+                call(json!({"op": "drop", "r": t}), move || drop_keep(fut));
                 if end {
                     break;
                 }
@@ -598,12 +770,23 @@ fn main() {
     let iters: usize = arg(&args, "--iters").and_then(|s| s.parse().ok()).unwrap_or(100);
     let out = arg(&args, "--out").expect("--out").to_string();
     let pct = args.iter().any(|a| a == "--pct");
-    let traces: Arc<StdMutex<Vec<(Value, Vec<Value>)>>> = Arc::new(StdMutex::new(Vec::new()));
+    use std::io::Write;
+    let mut f = std::io::BufWriter::new(std::fs::File::create(&out).expect("create"));
+    // the run in progress, so that a crash of the code under test can be attributed to it
+    let marker = format!("{}.cur", out);
+    let mut nruns = 0usize;
+    let mut events = 0usize;
     let mut deadlocks = 0usize;
     // one shuttle run per iteration so that a failing schedule does not hide the others
     for it in 0..iters {
         let s = seed.wrapping_mul(1_000_003).wrapping_add(it as u64);
         with_rec(|r| *r = Rec::default());
+        let _ = std::fs::write(
+            &marker,
+            json!({"op": "run_start", "prim": prim, "flavour": "slock-threads", "consts": consts, "seed": s,
+                   "schedule": if pct { "pct" } else { "random" }, "iteration": it, "base_seed": seed})
+            .to_string(),
+        );
         let c2 = consts.clone();
         let p2 = prim.clone();
         let body = move || match (p2.as_str(), c2["Cap"].as_u64()) {
@@ -611,11 +794,13 @@ fn main() {
             ("semaphore", _) if c2["SharedFlavour"].as_bool() == Some(true) => prog_semaphore_shared(&c2),
             ("semaphore", _) => prog_semaphore(&c2),
             ("event", _) => prog_event(&c2),
+            ("mpmc", _) if c2["Shared"].as_bool() == Some(true) => prog_mpmc_shared(&c2),
             ("mpmc", Some(0)) => prog_mpmc0(&c2),
             ("mpmc", _) => prog_mpmc1(&c2),
             ("oneshot", _) if c2["Broadcast"].as_bool() == Some(true) => prog_oneshot_bc(&c2),
             ("oneshot", _) => prog_oneshot(&c2),
             ("state", _) => prog_state(&c2),
+            ("timer", _) => prog_timer(&c2),
             _ => panic!("unknown primitive"),
         };
         let res = std::panic::catch_unwind(std::panic::AssertUnwindSafe(|| {
@@ -630,21 +815,37 @@ fn main() {
         if failed {
             deadlocks += 1;
         }
-        let log = with_rec(|r| std::mem::take(&mut r.log));
+        let mut log = with_rec(|r| std::mem::take(&mut r.log));
+        if let Err(p) = &res {
+            // a run that did not finish: the code under test panicked, or every task is parked
+            // (a lost wake-up), or the step budget of the scheduler ran out (neither)
+            let msg = if let Some(s) = p.downcast_ref::<&str>() {
+                s.to_string()
+            } else if let Some(s) = p.downcast_ref::<String>() {
+                s.clone()
+            } else {
+                "panic".to_string()
+            };
+            let kind = if msg.contains("deadlock") {
+                "deadlock"
+            } else if msg.contains("exceeded max_steps") || msg.contains("max_steps") {
+                "budget"
+            } else {
+                "panic"
+            };
+            let short: String = msg.chars().take(160).collect();
+            log.push(json!({"op": "abort", "res": kind, "msg": short, "wakes": [], "taken": []}));
+        }
         let header = json!({"op": "run_start", "prim": prim, "flavour": "slock-threads", "consts": consts,
                             "seed": s, "schedule": if pct { "pct" } else { "random" }, "aborted": failed});
-        traces.lock().unwrap().push((header, log));
-    }
-    use std::io::Write;
-    let mut f = std::io::BufWriter::new(std::fs::File::create(&out).expect("create"));
-    let tr = traces.lock().unwrap();
-    let mut events = 0;
-    for (h, evs) in tr.iter() {
-        writeln!(f, "{}", h).unwrap();
-        for e in evs {
+        writeln!(f, "{}", header).unwrap();
+        for e in &log {
             writeln!(f, "{}", e).unwrap();
             events += 1;
         }
+        f.flush().unwrap();
+        nruns += 1;
     }
-    println!("{}", json!({"runs": tr.len(), "events": events, "aborted": deadlocks}));
+    let _ = std::fs::remove_file(&marker);
+    println!("{}", json!({"runs": nruns, "events": events, "aborted": deadlocks}));
 }
